@@ -374,8 +374,8 @@ theorem newRows_lt (G : Forest H) {k t c : Nat} (htc : G.numLeaves + k = 2 ^ (t 
 
 /-! ### `deadB` read off the node list -/
 
-/-- `DeadTree`-style reading of `deadB` (for hygienic forests under `CR`) -/
-theorem deadB_iff (cr : CR H) (G : Forest H) (hn : G.numLeaves < 2 ^ 64) (hy : Hyg G) {h : Nat}
+/-- `DeadTree`-style reading of `deadB` (for hygienic forests under `NZ`) -/
+theorem deadB_iff (nz : NZ H) (G : Forest H) (hn : G.numLeaves < 2 ^ 64) (hy : Hyg G) {h : Nat}
     (hb : G.numLeaves.testBit h = true) :
     deadB G h = true ↔ (rootPos G.numLeaves h, (zero : H), false) ∈ G.nodes := by
   have hrow : h ∈ treeRows G.numLeaves := CalcComplete.mem_treeRows hn hb
@@ -401,7 +401,7 @@ theorem deadB_iff (cr : CR H) (G : Forest H) (hn : G.numLeaves < 2 ^ 64) (hy : H
     have hz : T.hash = zero := by
       have := congrArg (fun x => x.2.1) e
       exact this.symm
-    refine CTree.hash_ne_zero cr.nonzero T ?_ hz
+    refine CTree.hash_ne_zero nz.nonzero T ?_ hz
     intro x hx
     apply hy.nz x
     rw [mem_liveLeaves]
@@ -481,8 +481,8 @@ theorem hyg_G7 : Hyg G7 where
 /-- `deadB_iff` on `G7`: row 1 is an empty root (both sides hold), row 2 is not (both fail) -/
 example : (rootPos G7.numLeaves 1, (zero : T), false) ∈ G7.nodes ∧
     ¬ (rootPos G7.numLeaves 2, (zero : T), false) ∈ G7.nodes :=
-  ⟨(deadB_iff crT G7 (by decide) hyg_G7 (h := 1) (by decide)).1 (by decide +kernel),
-   fun hm => absurd ((deadB_iff crT G7 (by decide) hyg_G7 (h := 2) (by decide)).2 hm) (by decide +kernel)⟩
+  ⟨(deadB_iff crT.toNZ G7 (by decide) hyg_G7 (h := 1) (by decide)).1 (by decide +kernel),
+   fun hm => absurd ((deadB_iff crT.toNZ G7 (by decide) hyg_G7 (h := 2) (by decide)).2 hm) (by decide +kernel)⟩
 
 end Example
 
